@@ -397,9 +397,27 @@ fn j2oas_schema_object(
     obj: &schemars::schema::SchemaObject,
 ) -> openapiv3::ReferenceOr<openapiv3::Schema> {
     if let Some(reference) = &obj.reference {
-        return openapiv3::ReferenceOr::Reference {
-            reference: reference.clone(),
-        };
+        let reference =
+            openapiv3::ReferenceOr::Reference { reference: reference.clone() };
+        // schemars represents `Option<T>` for a referenced `T` as a reference
+        // with a `nullable` sibling.  OpenAPI v3.0.x ignores the siblings of
+        // a `$ref`, so keep the nullability by wrapping the reference (the
+        // same shape schemars' own `RemoveRefSiblings` visitor produces).
+        if matches!(
+            &obj.extensions.get("nullable"),
+            Some(serde_json::Value::Bool(true))
+        ) {
+            return openapiv3::ReferenceOr::Item(openapiv3::Schema {
+                schema_data: openapiv3::SchemaData {
+                    nullable: true,
+                    ..Default::default()
+                },
+                schema_kind: openapiv3::SchemaKind::AllOf {
+                    all_of: vec![reference],
+                },
+            });
+        }
+        return reference;
     }
 
     let ty = match &obj.instance_type {
